@@ -132,13 +132,13 @@ func classifyErr(filename string, text []byte, err error) stageResult {
 }
 
 // parseWithStack re-runs dbc.Parse under a recover that keeps the stack.
-func parseWithStack(filename string, text []byte) (res stageResult) {
+func parseWithStack(filename string, text []byte, hexMode bool) (res stageResult) {
 	defer func() {
 		if r := recover(); r != nil {
 			res = panicResult(r, debug.Stack())
 		}
 	}()
-	_, _ = dbc.Parse(filename, bytes.NewReader(text), false)
+	_, _ = dbc.Parse(filename, bytes.NewReader(text), hexMode)
 	return stageResult{class: clsOK}
 }
 
@@ -151,11 +151,34 @@ func runParse(filename string, text []byte) (dbccase.Outcome, stageResult) {
 	case "syn", "other":
 		return o, classifyErr(filename, text, o.Err)
 	}
-	res := parseWithStack(filename, text)
+	res := parseWithStack(filename, text, false)
 	if res.class != clsPanic { // not reproduced: keep the text ParseSafe recorded
 		res = stageResult{class: clsPanic, site: "unknown." + panicKind(o.Panic), detail: oneLine(o.Panic, 300)}
 	}
 	return o, res
+}
+
+// runParseHex: dbc.Parse with hexNumbersEnabled = true (ImportDBCFile never uses that mode, the
+// parser entry point has it): same classification; reported under the parse stage with the site
+// prefixed by "hex:".
+func runParseHex(filename string, text []byte) stageResult {
+	o := dbccase.ParseSafe(filename, text, true)
+	var res stageResult
+	switch o.Class {
+	case "ok":
+		return stageResult{class: clsOK}
+	case "syn", "other":
+		res = classifyErr(filename, text, o.Err)
+	default:
+		res = parseWithStack(filename, text, true)
+		if res.class != clsPanic {
+			res = stageResult{class: clsPanic, site: "unknown." + panicKind(o.Panic), detail: oneLine(o.Panic, 300)}
+		}
+	}
+	if res.class == clsPanic || res.class == clsBadPos {
+		res.site = "hex:" + res.site
+	}
+	return res
 }
 
 func runImport(filename string, text []byte) (res stageResult) {
